@@ -104,6 +104,12 @@ def scenarios(tier, seed=0):
             hd = D(2001, 5, 1) + dt.timedelta(days=h)
             for off in (False, True):
                 out.append(mk("05/01", L, D(2001, 4, 29), D(2002, 7, 15), off, harvest=f"{hd.month:02d}/{hd.day:02d}"))
+    # a latest harvest date on the SAME month/day as the planting date (a harvest window of exactly one year), and one day either side
+    for off in (False, True):
+        for planting, h in (("05/01", "05/01"), ("05/01", "04/30"), ("05/01", "05/02"), ("12/20", "12/20"), ("01/01", "01/01"), ("01/01", "12/31")):
+            y = 2001
+            mm, dd = (int(x) for x in planting.split("/"))
+            out.append(mk(planting, 18 if q else 40, D(y, mm, dd) - dt.timedelta(days=2), D(y + 2, mm, dd) + dt.timedelta(days=60), off, harvest=h))
     # ... and across years whose planting-to-harvest window does / does not contain 29 February (several seasons)
     for off in (False, True):
         for start, end in ((D(2003, 1, 28), D(2005, 4, 30)), (D(2004, 1, 30), D(2006, 4, 30)), (D(2003, 2, 1), D(2004, 12, 30))):
